@@ -49,11 +49,16 @@ pub struct St {
     pub macro_iterations: u64,
     /// map entries are already in the order the implementation iterates them (C10 reads it off the log)
     pub map_order_known: bool,
+    /// variant semantics: exists_one may stop once two elements have satisfied the body (the statement only fixes
+    /// the result; whether elements after the second hit are visited is not asserted)
+    pub exists_one_stops_at_two: bool,
+    /// extra zero-argument host functions returning a constant (C11: functions named like variables)
+    pub const_funcs: Vec<(String, V)>,
 }
 
 impl St {
     pub fn new(vars: &[(String, V)], table: Table) -> St {
-        St { scopes: vec![vars.to_vec()], log: vec![], table, host: true, builtins: true, calls: 0, skipped_operand: false, macro_iterations: 0, map_order_known: false }
+        St { scopes: vec![vars.to_vec()], log: vec![], table, host: true, builtins: true, calls: 0, skipped_operand: false, macro_iterations: 0, map_order_known: false, exists_one_stops_at_two: false, const_funcs: vec![] }
     }
     fn lookup(&self, n: &str) -> Option<&V> {
         for s in self.scopes.iter().rev() {
@@ -65,7 +70,7 @@ impl St {
         None
     }
     pub fn has_function(&self, n: &str) -> bool {
-        (self.builtins && BUILTINS.contains(&n)) || (self.host && HOST_FUNCS.contains(&n))
+        (self.builtins && BUILTINS.contains(&n)) || (self.host && HOST_FUNCS.contains(&n)) || self.const_funcs.iter().any(|(k, _)| k == n)
     }
 }
 
@@ -455,6 +460,9 @@ fn eval_macro(m: Mac, range: &E, var: &str, body: &[E], st: &mut St) -> Res {
                     let v = eval(&body[0], st)?;
                     if truthy_bool(&v)? {
                         n += 1;
+                        if n == 2 && st.exists_one_stops_at_two {
+                            break;
+                        }
                     }
                 }
                 Ok(V::Bool(n == 1))
@@ -552,11 +560,11 @@ fn simple_match(s: &str, pat: &str) -> Result<bool, Stop> {
 pub fn conv_int(v: &V) -> Res {
     match v {
         V::Int(i) => Ok(V::Int(*i)),
-        V::UInt(u) => i64::try_from(*u).map(V::Int).map_err(|_| Stop::Err(ErrClass::Overflow)),
+        V::UInt(u) => i64::try_from(*u).map(V::Int).map_err(|_| Stop::Err(ErrClass::Range)),
         V::Float(f) => {
             let x = f.0;
             if x.is_nan() || x.is_infinite() {
-                return Err(Stop::Err(ErrClass::Overflow));
+                return Err(Stop::Err(ErrClass::Range));
             }
             let t = x.trunc();
             // −2^63 itself: cel-go rejects it, arithmetic allows it — not asserted
@@ -566,7 +574,7 @@ pub fn conv_int(v: &V) -> Res {
             if t > -9223372036854775808.0 && t < 9223372036854775808.0 {
                 Ok(V::Int(t as i64))
             } else {
-                Err(Stop::Err(ErrClass::Overflow))
+                Err(Stop::Err(ErrClass::Range))
             }
         }
         V::Str(s) => {
@@ -589,11 +597,11 @@ pub fn conv_int(v: &V) -> Res {
 pub fn conv_uint(v: &V) -> Res {
     match v {
         V::UInt(u) => Ok(V::UInt(*u)),
-        V::Int(i) => u64::try_from(*i).map(V::UInt).map_err(|_| Stop::Err(ErrClass::Overflow)),
+        V::Int(i) => u64::try_from(*i).map(V::UInt).map_err(|_| Stop::Err(ErrClass::Range)),
         V::Float(f) => {
             let x = f.0;
             if x.is_nan() || x.is_infinite() {
-                return Err(Stop::Err(ErrClass::Overflow));
+                return Err(Stop::Err(ErrClass::Range));
             }
             if x < 0.0 && x > -1.0 {
                 return Err(unsup("uint(x) for -1 < x < 0"));
@@ -602,7 +610,7 @@ pub fn conv_uint(v: &V) -> Res {
             if t >= 0.0 && t < 18446744073709551616.0 {
                 Ok(V::UInt(t as u64))
             } else {
-                Err(Stop::Err(ErrClass::Overflow))
+                Err(Stop::Err(ErrClass::Range))
             }
         }
         V::Str(s) => {
@@ -673,6 +681,13 @@ fn eval_call(name: &str, recv: Option<&E>, args: &[E], st: &mut St) -> Res {
         Some(r) => Some(eval(r, st)?),
         None => None,
     };
+    if let Some((_, v)) = st.const_funcs.iter().find(|(k, _)| k == name) {
+        if !args.is_empty() {
+            return Err(unsup("surplus arguments to a zero-argument host function"));
+        }
+        st.calls += 1;
+        return Ok(v.clone());
+    }
     let mut a = Args { recv: recv_v, args, next: 0 };
     if st.host && HOST_FUNCS.contains(&name) {
         return eval_host(name, &mut a, st);
